@@ -26,7 +26,7 @@ class SMRun:
         self.binary = os.path.join(self.dir, "sm.test")
         self.ctx.go_test(PKG, "", overlay=ov, compile_only=True, binary=self.binary, timeout=900)
 
-    def cfg(self, name, consts, invariants=(), properties=(), view=True, guide=None):
+    def cfg(self, name, consts, invariants=(), properties=(), view=True, guide=None, edge_view=False):
         """writes a cfg with the given constants; returns its file name (copied next to the spec by ctx.tlc)."""
         lines = ["CONSTANTS"]
         base = {"NVal": 4, "Me": self.me, "InitH": 1, "MaxSteps": 6, "MaxH": 2, "MaxR": 1, "AllowCrash": "FALSE",
@@ -36,7 +36,9 @@ class SMRun:
         for k, v in base.items():
             lines.append("  %s = %s" % (k, v))
         lines += ["  Guide <- SMGuide", "  Blocks <- SMBlocks" + universe, "  VoteSets <- SMVoteSets" + universe, "INIT Init", "NEXT Next"]
-        if view:
+        if edge_view:
+            lines.append("VIEW EdgeView")
+        elif view:
             lines.append("VIEW View")
         lines.append("CHECK_DEADLOCK FALSE")
         if invariants:
@@ -70,6 +72,22 @@ class SMRun:
             out.append(h)
         return out
 
+    def edge_cover(self, consts, timeout=1500):
+        """Exhaustive TLC run whose view includes the last step: one behaviour is exported for every reachable
+        (abstract state, event) pair -- including the events the model ignores.  Returns the maximal behaviours
+        (every exported behaviour is a prefix of one of them) and the TLC result."""
+        cfg = self.cfg("SM_cover.cfg", dict(consts, EmitAll="TRUE"), invariants=("EmitEvery",), edge_view=True)
+        res = self.tlc(cfg, timeout=timeout, workers=1)
+        behs = self.behaviours(res)
+
+        def key(b):
+            return json.dumps([(s["op"], s["args"], s["resps"], s["crash"]) for s in b], sort_keys=True)
+        pref = set()
+        for b in behs:
+            for i in range(1, len(b)):
+                pref.add(key(b[:i]))
+        return [b for b in behs if key(b) not in pref], res, len(behs)
+
     def guided(self, steps):
         cfg = self.cfg("SM_guide.cfg", {"MaxSteps": len(steps), "AvoidPanics": "FALSE", "AllowCrash": "TRUE", "EmitAll": "TRUE",
                                         "MaxH": 9, "MaxR": 9}, invariants=("Emit",), view=False)
@@ -78,9 +96,39 @@ class SMRun:
         full = [b for b in behs if len(b) == len(steps) or (b and (b[-1].get("pan") or b[-1].get("stop")))]
         return full[:1] if full else behs[:1]
 
-    def replay(self, behs, batch=500, timeout_per_batch=900):
+    def replay(self, behs, batch=500, timeout_per_batch=900, parallel=8):
+        """Replays behaviours; large sets are split over `parallel` child processes."""
         if self.binary is None:
             self.build()
+        if len(behs) > 40 and parallel > 1:
+            from concurrent.futures import ThreadPoolExecutor
+            chunks = [behs[i::parallel] for i in range(parallel)]
+            chunks = [c for c in chunks if c]
+            subs = []
+            for c in chunks:
+                sub = SMRun.__new__(SMRun)
+                sub.__dict__.update(self.__dict__)
+                sub.records, sub.deaths = [], []
+                sub.summary = {"behaviours": 0, "steps": 0, "mismatches": 0, "violations": 0, "ops": {}, "distinct_states": 0}
+                sub.dir = os.path.join(self.dir, "par-%d" % len(os.listdir(self.dir)))
+                os.makedirs(sub.dir)
+                subs.append(sub)
+            with ThreadPoolExecutor(len(chunks)) as ex:
+                list(ex.map(lambda sc: sc[0].replay(sc[1], batch, timeout_per_batch, parallel=1), zip(subs, chunks)))
+            # map the chunk-local behaviour indices back to indices into behs
+            for ci, sub in enumerate(subs):
+                for r in sub.records:
+                    if "beh" in r:
+                        r["beh"] = r["beh"] * parallel + ci
+                for d in sub.deaths:
+                    d["beh"] = d["beh"] * parallel + ci
+                self.records += sub.records
+                self.deaths += sub.deaths
+                for k in ("behaviours", "steps", "mismatches", "violations", "distinct_states"):
+                    self.summary[k] += sub.summary[k]
+                for k, v in sub.summary["ops"].items():
+                    self.summary["ops"][k] = self.summary["ops"].get(k, 0) + v
+            return self.records
         inp = os.path.join(self.dir, "beh-%d.ndjson" % len(os.listdir(self.dir)))
         with open(inp, "w") as f:
             for i, h in enumerate(behs):
